@@ -339,7 +339,12 @@ func (c *Ctx) staticCall(fr *Frame, st *State, callee *ssa.Function, args []Val,
 		spec = c.DB.Funcs[shortName(callee.Origin())]
 	}
 	if spec != nil {
-		if _, inl := spec.Flags["inline"]; !inl {
+		_, inl := spec.Flags["inline"]
+		if _, lfi := spec.Flags["lfinline"]; lfi && c.lfMode {
+			// functional contract that says nothing about writes under lock: the lock rule looks at the body instead
+			inl = true
+		}
+		if !inl {
 			return c.callByContract(fr, st, spec, key, args, callee.Signature.Results(), x)
 		}
 	}
@@ -447,6 +452,16 @@ func popcount64(x string) string {
 func (c *Ctx) callByContract(fr *Frame, st *State, spec *FuncSpec, key string, args []Val, results *types.Tuple, x *ssa.Call) Val {
 	pre := st.clone()
 	env := &Env{c: c, vars: map[string]Val{}, cur: pre, old: pre}
+	if x != nil {
+		if callee := x.Common().StaticCallee(); callee != nil && callee.Origin() != nil {
+			// instance of a generic function: the origin's type parameters denote the type arguments of this call
+			env.tsubst = map[string]types.Type{}
+			tps, tas := callee.Origin().TypeParams(), callee.TypeArgs()
+			for i := 0; tps != nil && i < tps.Len() && i < len(tas); i++ {
+				env.tsubst[tps.At(i).Obj().Name()] = tas[i]
+			}
+		}
+	}
 	if len(spec.Params) != len(args) {
 		panic(fmt.Errorf("contract %s binds %d parameters, call has %d arguments", key, len(spec.Params), len(args)))
 	}
@@ -563,7 +578,7 @@ func (c *Ctx) callByContract(fr *Frame, st *State, spec *FuncSpec, key string, a
 	default:
 		res = c.freshVal(results, "r."+lastPart(key))
 	}
-	post := &Env{c: c, vars: map[string]Val{}, cur: st, old: pre}
+	post := &Env{c: c, vars: map[string]Val{}, cur: st, old: pre, tsubst: env.tsubst}
 	for k, v := range env.vars {
 		post.vars[k] = v
 	}
